@@ -6,6 +6,7 @@ mod c16;
 mod c17;
 mod c18;
 mod c18fs;
+mod c19;
 mod wallet;
 mod refnum;
 
@@ -37,6 +38,7 @@ fn main() {
         "C16" => c16::main(tier),
         "C17" => c17::main(tier),
         "C18" => c18::main(tier),
+        "C19" => c19::main(tier),
         _ => {
             eprintln!("usage: vcheck-pure <C16|...> [quick|thorough]");
             std::process::exit(2);
